@@ -37,6 +37,7 @@ type zzSpec struct {
 	enumType string        // ... and the declared type, if any
 
 	hasDefault bool
+	defArr     []string
 	defF       float64
 	defS       string
 	defB       bool
@@ -360,7 +361,12 @@ func zzGen(mask int, depth int, allowNullable bool) (*schemas.Type, *zzSpec) {
 		case "array":
 			if s.items != nil && s.items.kind == "string" {
 				s.hasDefault = true
-				t.Default = []interface{}{"a", "b"}
+				s.defArr = []string{"a", "b"}
+				if zzvrt.Param("DEFTEXT", 0) == 1 && zzvrt.Bool() {
+					// elements whose text matters to the literal renderer
+					s.defArr = []string{"100%d %s", "q\"uote\\back"}
+				}
+				t.Default = []interface{}{s.defArr[0], s.defArr[1]}
 			}
 		}
 	}
